@@ -130,7 +130,7 @@ theorem dev_stage (dev : Option (Group Unit)) (loc : Option Local) (ws2 : Str) (
   | some g =>
     obtain ⟨k, ks, h1, h2, _⟩ := devText_head
     have := group_scan devKws () (fun _ => devText) g (TL loc ws2) (hd g rfl) ⟨k, ks, h1, h2⟩
-      (fun t ht => takeKw_dev g.word t ht (ok_word _ g (hd g rfl)).1) k0.noDigit
+      (fun t _ => takeKw_dev g.word t (ok_word _ g (hd g rfl)).1) k0.noDigit
       (fun _ => by rw [k0.optSep_eq]; exact k0.noDigit) k0.follow
     simp [devStage, TD, optR, this, k0.optSep_eq]
 
